@@ -37,6 +37,21 @@ fn main() {
                 Err(e) => format!("err {} {}", e.0, hex(buf.chunk())),
             }
         }
+        ["vi.decc", chunks] => {
+            // the same bytes presented as a non-contiguous Buf (chunk boundaries anywhere)
+            let cs: Vec<bytes::Bytes> = chunks.split('.').map(|c| bytes::Bytes::from(unhex(c))).collect();
+            let mut buf = h3v::ChunkBuf::new(cs);
+            match VarInt::decode(&mut buf) {
+                Ok(x) => {
+                    let rest = buf.copy_to_bytes(buf.remaining());
+                    format!("ok {} {}", x.into_inner(), hex(&rest))
+                }
+                Err(e) => {
+                    let rest = buf.copy_to_bytes(buf.remaining());
+                    format!("err {} {}", e.0, hex(&rest))
+                }
+            }
+        }
         ["sid", x] => {
             let x: u64 = x.parse().unwrap();
             match StreamId::try_from(x) {
